@@ -73,9 +73,18 @@ def search(rep: C.Report, tier: str, broken):
     from scipy.optimize import brentq
     r = C.rng("C03")
     nv = 5 if tier == "quick" else 25
-    for name, th in HC.eos_families(tier):
+    import models as _models
+    fams = list(HC.eos_families(tier))
+    # the same equations of state written in other units (all temperatures multiplied by s): solver tolerances on dimensionless unknowns (v+) must
+    # not pick up the size of the temperatures
+    for s_ in ((1e4,) if tier == "quick" else (1e4, 1e-3, 3e2)):
+        fams.append((f"twostep:Tn=0.6, temperatures x {s_:g}", _models.ScaledEOS(_models.twostep_eos(Tn=0.6), s_)))
+        if tier == "thorough":
+            fams.append((f"twostep:Tn=0.8, temperatures x {s_:g}", _models.ScaledEOS(_models.twostep_eos(Tn=0.8), s_)))
+    for name, th in fams:
         try:
-            h = HC.make_hydro(th)
+            # scaled-unit families with the looser absolute tolerance the package's own tests use (1e-6)
+            h = HC.make_hydro(th, atol=1e-6) if "temperatures x" in name else HC.make_hydro(th)
         except Exception:  # noqa: BLE001
             continue
         Tn = h.Tnucl
